@@ -28,6 +28,7 @@ REVIEWED = {
     "<minijinja::value::merge_object::MergeSeq as minijinja::value::object::Object>::get_value|Overflow:Sub":
         "idx - current_idx under `idx < current_idx + len` with current_idx <= idx (loop invariant)",
     "minijinja::filters::builtins::batch|DivisionByZero": "divisor `count` is tested against 0 at function entry",
+    "minijinja::functions::builtins::range|loop-count": "the lazy range is rejected by to_result when it has more than 100000 elements (C01.P6)",
     "minijinja::formatting::FormatSpec::group|RemainderByZero": "group_size is the constant 3 or 4 at both call sites",
     "minijinja::filters::builtins::batch|Overflow:Sub": "count - tmp.len(): tmp never holds more than count items",
     "minijinja::filters::builtins::slice|Overflow:Mul": "slice * items_per_slice <= len (items_per_slice = len / count)",
@@ -224,6 +225,17 @@ def run(ctx):
                 ctx.ob("C01.P3.template-integer-allocation-is-bounded", "%s%s" % (tag, key), reason is not None,
                        reason or "allocation sized by a template-controlled integer (%s) without a bound: capacity "
                                  "overflow panic / allocation failure abort" % desc, f.where(bb))
+            for bb, desc, end in taint.loop_count_hazards(f):
+                n3 += 1
+                bnd = taint.bounded_by_constant(f, bb, end)
+                if bnd:
+                    ndis += 1
+                    continue
+                key = "%s|loop-count" % f.path
+                reason = REVIEWED.get(key)
+                ctx.ob("C01.P3.template-chosen-iteration-count-is-bounded", "%s%s" % (tag, key), reason is not None,
+                       reason or "a loop runs a template-controlled number of times (%s) with no dominating bound: with "
+                                 "a growing collection in its body the host runs out of memory" % desc, f.where(bb))
         ctx.floor("C01.P3 arithmetic/allocation sites on template integers" + tag, n3, 15 if cname != "MIN" else 5)
         ctx.count("C01.P3 discharged automatically (128-bit widening / constant bound)" + tag, ndis)
 
